@@ -127,6 +127,9 @@ pub struct FileSpec {
     pub items: Vec<Item>,
     /// registered in `plugin_fixture_files` before analysis (pytest11 entry-point module)
     pub plugin: bool,
+    /// every `from … import …` of the file is written inside `try: … except ImportError: pass`
+    #[serde(default)]
+    pub guarded_imports: bool,
 }
 
 impl FileSpec {
@@ -135,6 +138,7 @@ impl FileSpec {
             rel: rel.into(),
             items,
             plugin: false,
+            guarded_imports: false,
         }
     }
     pub fn is_conftest(&self) -> bool {
@@ -238,6 +242,16 @@ impl Ws {
                     Item::Raw(s) => {
                         for l in s.lines() {
                             push(&mut out, l, &mut line);
+                        }
+                    }
+                    Item::StarImport { module } if f.guarded_imports => {
+                        for l in ["try:".to_string(), format!("    from {} import *", module), "except ImportError:".to_string(), "    pass".to_string()] {
+                            push(&mut out, &l, &mut line);
+                        }
+                    }
+                    Item::ExplicitImport { module, names } if f.guarded_imports => {
+                        for l in ["try:".to_string(), format!("    from {} import {}", module, names.join(", ")), "except ImportError:".to_string(), "    pass".to_string()] {
+                            push(&mut out, &l, &mut line);
                         }
                     }
                     Item::StarImport { module } => {
